@@ -232,6 +232,11 @@ func (session *HermesSession) Run(workingDir string, args []string, logID string
 			}
 		}
 
+		// a weather file may start in mid-year, but not after the first simulated day (g.ITAG, day of the start year)
+		if bbbShared.firstDay > g.ITAG {
+			return fmt.Errorf("%s weather data starts after the simulation start: first record is day %d of %d, simulation starts on day %d: %s", g.LOGID, bbbShared.firstDay, g.ANJAHR, g.ITAG, VWDATstr)
+		}
+
 		Init(&g)
 
 		// ************ OEFFNEN UND ANLEGEN DES HEADERS FUER LANGZEITRECHNUNG PFLANZENERGEBNISSE ************
